@@ -649,6 +649,8 @@ def run(prop_id, tier, seed, replay=None):
         for t in observed:
             for s in t["steps"]:
                 s.pop("viol", None)
+            if not t.get("error") and (not t["steps"] or t["steps"][-1]["act"]["op"] not in ("Reopen", "Hang")):
+                t["error"] = "driver: scenario ended without Reopen or Hang"
         verdict = family.judge([SPEC], "ShutdownProps", PROPS[prop_id], prop_id, observed, label=label)
         _tm("judge", t0)
         if g is not None:
